@@ -346,6 +346,16 @@ def generate(repo, cfg_inc):
     name_end = disjunction_of_eq(m_ne.group(1), r"name_end", "name-end test")
     one(r"uint8_t\s+name_end\s*=\s*open_find_result\.ptr\s*\[\s*to_find_open\.len\s*\]\s*;", adv, "read of the byte after `<name`")
 
+    # cursor movements of the closing-tag search, as modelled by closeInner (one byte past a counted / uncounted "<name",
+    # the whole closing tag behind the match) and the body length
+    one(r"aws_byte_cursor_advance\s*\(\s*&parser->doc\s*,\s*skip_len\s*\+\s*1\s*\)\s*;", adv, "advance past a nested opening")
+    one(r"size_t\s+skip_len\s*=\s*close_find_result\.ptr\s*-\s*parser->doc\.ptr\s*;\s*aws_byte_cursor_advance\s*\(\s*&parser->doc\s*,\s*"
+        r"skip_len\s*\+\s*closing_cmp_buf\.len\s*\)\s*;\s*depth_count--\s*;\s*break\s*;", adv, "advance behind the closing tag")
+    one(r"size_t\s+len\s*=\s*close_find_result\.ptr\s*-\s*node->doc_at_body\.ptr\s*;", adv, "body length")
+    one(r"if\s*\(\s*open_find_result\.ptr\s*<\s*close_find_result\.ptr\s*\)", adv, "opening found in front of the closing tag")
+    one(r"\}\s*while\s*\(\s*depth_count\s*>\s*0\s*\)\s*;", adv, "loop until the depth counter is 0")
+    one(r"size_t\s+depth_count\s*=\s*1\s*;", adv, "depth counter starts at 1")
+
     # ---- s_load_node_decl
     m_empty = one(r"node->is_empty\s*=\s*decl_body->ptr\s*\[\s*decl_body->len\s*-\s*1\s*\]\s*==\s*(" + CHAR + r")\s*;", load, "is_empty test")
     m_sp = one(r"aws_byte_cursor_split_on_char\s*\(\s*decl_body\s*,\s*(" + CHAR + r")\s*,\s*&splits\s*\)", load, "split of the declaration")
@@ -397,6 +407,11 @@ def generate(repo, cfg_inc):
     wh_expr = m_wh.group(1).replace("parser->error", "error")
     only_identifiers(wh_expr, ["error"], "loop guard")
     m_pc = one(r"if\s*\(\s*\*\s*\(\s*next_location\s*\+\s*1\s*\)\s*==\s*(" + CHAR + r")\s*\)\s*\{\s*parent_closed\s*=\s*true", trav, "parent-closed test")
+    # the skip of a node the callback did not process, at both call sites
+    one(r"if\s*\(\s*!next_node\.processed\s*\)\s*\{\s*if\s*\(\s*s_advance_to_closing_tag\s*\(\s*parser\s*,\s*&next_node\s*,\s*NULL\s*\)\s*\)\s*\{\s*goto\s+error\s*;",
+        trav, "skip of an unprocessed child")
+    one(r"if\s*\(\s*!sibling_node\.processed\s*\)\s*\{\s*if\s*\(\s*s_advance_to_closing_tag\s*\(\s*parser\s*,\s*&sibling_node\s*,\s*NULL\s*\)\s*\)\s*\{\s*return\s+AWS_OP_ERR\s*;",
+        fn_body(txt, "s_node_next_sibling"), "skip of an unprocessed root")
     # order: push happens after the depth test
     if trav.find("exceeds max depth") > trav.find("aws_array_list_push_back(&parser->callback_stack"):
         raise GenError("xml_parser.c: the callback stack is pushed before the depth test")
